@@ -951,5 +951,44 @@ def s_tuple(s):
     return o
 
 
-RULES = [kalman_filter_rule, kalman_smoother_rule, linear_gaussian_model_rule, hmm_rules]
+def baseline_glue(ctx, rule="ROLE-baseline-glue"):
+    """The entry points that hand out the exact baselines are thin compositions; a swapped or dropped argument there makes every exact
+    answer wrong while each component stays right.  forward_filtering_backward_sampling = backward_sample(alpha of forward_filter on the
+    same four arguments, same transition matrix) scored by compute_sequence_log_prob on the same model; the *_exact_log_marginal
+    helpers return the log-marginal component of forward_filter / kalman_filter called on their own arguments in order."""
+    from .util import mk_lin
+    ev = mk_ev(ctx)
+    for f in ("forward_filter", "backward_sample", "compute_sequence_log_prob", "kalman_filter"):
+        ev.canon_kw_functions.add(SS + f)
+    ev.opaque |= {SS + f for f in ("forward_filter", "backward_sample", "compute_sequence_log_prob", "kalman_filter")}
+    lin = mk_lin(ev)
+    P = lambda n: ("param", n)
+    OBS, INIT, TM, EM = P("observations"), P("initial_probs"), P("transition_matrix"), P("emission_matrix")
+    ff = call(N(SS + "forward_filter"), OBS, INIT, TM, EM)
+    # forward_filtering_backward_sampling
+    dotted = SS + "forward_filtering_backward_sampling"
+    s = summarize(ctx, ev, dotted)
+    loc = func_loc(ctx, dotted)
+    construct = "state_space.forward_filtering_backward_sampling"
+    states = call(N(SS + "backward_sample"), ("idx", ff, C(0)), TM)
+    lp = call(N(SS + "compute_sequence_log_prob"), states, OBS, INIT, TM, EM)
+    want = call(N(SS + "DiscreteHMMTrace"), states, OBS, lp)
+    if lin.norm(s.ret) == lin.norm(want):
+        ctx.ok(rule, construct, "states = backward_sample(alpha, T); log_prob = compute_sequence_log_prob(states, obs, init, T, E)")
+    else:
+        ctx.bad(rule, construct, "trace(states sampled from the filter's alphas, observations, log prob of that sequence under the same model)",
+                f"found {short(s.ret, ev, 300)}; expected {short(want, ev, 300)}", loc)
+    # exact marginals
+    for name, want in (("discrete_hmm_exact_log_marginal", ("idx", ff, C(1))),
+                       ("linear_gaussian_exact_log_marginal", ("idx", call(N(SS + "kalman_filter"), OBS, P("initial_mean"), P("initial_cov"), P("A"), P("Q"), P("C"), P("R")), C(2)))):
+        dotted = SS + name
+        s = summarize(ctx, ev, dotted)
+        construct = f"state_space.{name}"
+        if lin.norm(s.ret) == lin.norm(want):
+            ctx.ok(rule, construct, "log-marginal component of the filter on the function's own arguments")
+        else:
+            ctx.bad(rule, construct, "returns the filter's log marginal on its own arguments in order", f"found {short(s.ret, ev, 200)}; expected {short(want, ev, 200)}", func_loc(ctx, dotted))
+
+
+RULES = [kalman_filter_rule, kalman_smoother_rule, linear_gaussian_model_rule, hmm_rules, baseline_glue]
 FLOOR = 10
